@@ -234,7 +234,7 @@ func C03(run *hx.Run) {
 	profiles := hx.Profiles(run.Tier, run.Seed)
 	perIndex := 40
 	if run.Thorough() {
-		perIndex = 400
+		perIndex = 200
 	}
 	forEachProfile(run, profiles, func(w *worker, d *hx.DB, idx int) {
 		rng := rand.New(rand.NewSource(run.Seed*977 + int64(idx)))
